@@ -527,19 +527,20 @@ pub fn builtin_binary_get<E: Effect>(
                     }
 
                     // Read all bytes we need
-                    let mut value = 0u64;
+                    // Up to 9 bytes are touched (a 64-bit field at a non-zero bit offset), so
+                    // accumulate in 128 bits.
+                    let mut wide = 0u128;
                     let bytes_to_read = last_byte_needed - byte_offset;
 
                     for i in 0..bytes_to_read {
-                        value =
-                            (value << 8) | (binary_data.byte_at(byte_offset + i).unwrap() as u64);
+                        wide = (wide << 8) | (binary_data.byte_at(byte_offset + i).unwrap() as u128);
                     }
 
                     // Shift to align our bits to the right
                     let bits_read = bytes_to_read * 8;
                     let bits_after = bits_read - bit_offset - num_bits;
 
-                    value >>= bits_after;
+                    let mut value = (wide >> bits_after) as u64;
 
                     // Mask to keep only the bits we want
                     let mask = if num_bits == 64 {
@@ -658,21 +659,16 @@ pub fn builtin_binary_set<E: Effect>(
                     let bits_in_modified = bytes_to_modify * 8;
                     let bits_after = bits_in_modified - bit_offset - num_bits;
 
-                    // Shift value to correct position
-                    let shifted_value = value_u64 << bits_after;
+                    // Up to 9 bytes are touched, so work in 128 bits.
+                    let shifted_value = (value_u64 as u128) << bits_after;
 
                     // Create mask: all 1s except in our target bits
-                    let mask = if num_bits == 64 {
-                        0
-                    } else {
-                        let target_mask = ((1u64 << num_bits) - 1) << bits_after;
-                        !target_mask
-                    };
+                    let mask = !((max_value as u128) << bits_after);
 
                     // Reconstruct the bytes
-                    let mut current_bytes = 0u64;
+                    let mut current_bytes = 0u128;
                     for &byte in &modified_bytes {
-                        current_bytes = (current_bytes << 8) | (byte as u64);
+                        current_bytes = (current_bytes << 8) | (byte as u128);
                     }
 
                     let new_bytes_value = (current_bytes & mask) | shifted_value;
